@@ -128,6 +128,12 @@ func getC17Env(tb report.TB) *c17Env {
 				panic(err)
 			}
 			_, _, _ = bug.AddComment(b, me, int64(1100+i), "a comment", nil, nil)
+			if i == 2 {
+				// a long thread: some of its comments share the first characters of their ids
+				for k := 0; k < 70; k++ {
+					_, _, _ = bug.AddComment(b, me, int64(1200+k), fmt.Sprintf("reply %d in a long thread", k), nil, nil)
+				}
+			}
 			if err := b.Commit(repo); err != nil {
 				panic(err)
 			}
@@ -256,7 +262,13 @@ func genC17(env *c17Env) func(t *rapid.T) c17Case {
 				id := bugIds[rapid.IntRange(0, len(bugIds)-1).Draw(t, "bug")]
 				comments := commentIdsOf(env, id)
 				target := comments[rapid.IntRange(0, len(comments)-1).Draw(t, "comment")]
-				switch rapid.SampledFrom([]string{"full", "full", "short", "unknown"}).Draw(t, "targetClass") {
+				switch rapid.SampledFrom([]string{"full", "full", "short", "unknown", "ambiguous"}).Draw(t, "targetClass") {
+				case "ambiguous":
+					if amb := ambiguousTargets(env); len(amb) > 0 {
+						v, cls = amb[rapid.IntRange(0, len(amb)-1).Draw(t, "amb")], "ambiguous"
+					} else {
+						v, cls = target, "valid"
+					}
 				case "full":
 					v, cls = target, "valid"
 				case "short":
@@ -300,6 +312,41 @@ func without(ids []string, id string) []string {
 	for _, x := range ids {
 		if x != id {
 			out = append(out, x)
+		}
+	}
+	return out
+}
+
+// ambiguousTargets: combined-id prefixes that designate two or more comments, all of the same bug (so that the bug
+// part of the prefix is not what makes them ambiguous).
+func ambiguousTargets(env *c17Env) []string {
+	type cm struct{ bug, combined string }
+	var all []cm
+	for _, id := range sortedIds(env.rc.Bugs().AllIds()) {
+		for _, c := range commentIdsOf(env, id) {
+			all = append(all, cm{id, c})
+		}
+	}
+	var out []string
+	for l := 2; l <= 10 && len(out) < 4; l++ {
+		groups := map[string][]cm{}
+		for _, c := range all {
+			groups[c.combined[:l]] = append(groups[c.combined[:l]], c)
+		}
+		var keys []string
+		for k := range groups {
+			keys = append(keys, k)
+		}
+		sort.Strings(keys)
+		for _, k := range keys {
+			g := groups[k]
+			same := len(g) >= 2
+			for _, c := range g {
+				same = same && c.bug == g[0].bug
+			}
+			if same {
+				out = append(out, k)
+			}
 		}
 	}
 	return out
@@ -489,6 +536,11 @@ func runC17(tb report.TB, rep *report.Reporter, c c17Case) {
 			}
 		}
 		return
+	}
+	if c.Classes["targetPrefix"] == "ambiguous" {
+		if fail("ambiguous-target-accepted", fmt.Sprintf("the target %q designates several comments of one bug; the mutation was accepted", c.Input["targetPrefix"])) {
+			return
+		}
 	}
 	// succeeded: exactly the requested change, by that user
 	var changed []string
